@@ -301,10 +301,13 @@ class RunLoop(W.LoopContract):
         md, mol = L["self"], L["molecule"]
         e = self.env
         e["entry_events"] = len(e["disk"].events)
-        self._inv(S(0), md, mol, "entry", lambda n, c: oblige(n, c))
+        self._inv(S(e.get("k0", 0)), md, mol, "entry", lambda n, c: oblige(n, c))
         # XYZ: initial frame labelled 0 iff the stream is enabled
         frames = e["disk"].text_frames("md.0.xyz")
-        if e["xyz_on"]:
+        if e.get("resume"):
+            oblige("entry.xyz.no-frame-written-on-resume", E.const(len(frames) == 0))
+            oblige("entry.no-rows-written-on-resume", E.const(not any(ev["kind"] == "h5write" for ev in e["disk"].events)))
+        elif e["xyz_on"]:
             if len(frames) != 1:
                 oblige("entry.xyz.initial-frame", E.FALSE)
             else:
@@ -317,7 +320,7 @@ class RunLoop(W.LoopContract):
         e = self.env
         k = fresh_int("k")
         e["k"] = k
-        assume((k >= 0) & (k <= e["steps"]))
+        assume((k >= e.get("k0", 0)) & (k <= e["steps"]))
         # havoc: writer cursors, dataset contents, molecule state; then assume Inv(k)
         w = md._h5_writer
         if w is not None:
@@ -392,7 +395,7 @@ class RunLoop(W.LoopContract):
                 oblige("exit.%s.no-filler-rows" % s, self._cursor(w, s) == self._cap(w, s))
 
 
-def _run_config(ctx, data_on, posmask, xyz_on, print_on, ckpt_on):
+def _run_config(ctx, data_on, posmask, xyz_on, print_on, ckpt_on, resume=False, on_ckpt=None):
     tgt_run = MD + ":Molecular_Dynamics_Basic.run"
     ctx.under_contract(tgt_run, loops_cut=["for i in range(self.step_offset, steps)"],
                        stubs=["_do_integrator_step", "append_vectors", "append_data", "_kinetic_energy", "_calc_temperature", "save_checkpoint", "_output_to_screen", "initialize_velocity", "esdriver", "_rotate_existing"])
@@ -404,6 +407,12 @@ def _run_config(ctx, data_on, posmask, xyz_on, print_on, ckpt_on):
                print_on=print_on, d_print=integer("d_print") if print_on else 0, ckpt_on=ckpt_on, d_ckpt=integer("d_ckpt") if ckpt_on else 0,
                steps=integer("steps"), r=integer("r"))
     pre = [env["steps"] >= 0]
+    if resume:
+        c0 = integer("c_resume")
+        env["k0"] = c0
+        env["resume"] = True
+        pre += [c0 >= 1, c0 <= env["steps"]]
+    env["on_ckpt"] = on_ckpt
     for n in STREAMS:
         if pos[n]:
             pre.append(cad[n] > 0)
@@ -422,6 +431,8 @@ def _run_config(ctx, data_on, posmask, xyz_on, print_on, ckpt_on):
 
     def stub_ckpt(self, molecule, steps, reuse_P, remove_com, *, step_done, path):
         env["ckpts"].append((step_done, len(env["disk"].events)))
+        if env.get("on_ckpt"):
+            env["on_ckpt"](env, self, molecule, step_done)
 
     def stub_initvel(self, molecule, vel_com=True):
         return molecule.velocities
@@ -438,8 +449,10 @@ def _run_config(ctx, data_on, posmask, xyz_on, print_on, ckpt_on):
         W.sys.modules[MD].__dict__["open"] = disk.open_fn()
         output = {"molid": [0], "prefix": "md", "print every": env["d_print"], "checkpoint every": env["d_ckpt"], "xyz": env["d_xyz"],
                   "h5": {"data": env["d_data"], "coordinates": cad["coordinates"], "velocities": cad["velocities"], "forces": cad["forces"]}}
-        md = Molecular_Dynamics_Basic({"method": "AM1"}, timestep=real("dt"), Temp=real("Temp"), step_offset=0, output=output)
-        mol = ghost_molecule(0)
+        if resume:
+            _prepopulate_resume_disk(disk, env)
+        md = Molecular_Dynamics_Basic({"method": "AM1"}, timestep=real("dt"), Temp=real("Temp"), step_offset=env.get("k0", 0), output=output)
+        mol = ghost_molecule(env.get("k0", 0))
         run(md, mol, env["steps"])
         return "returned"
 
@@ -479,6 +492,55 @@ def _run_config(ctx, data_on, posmask, xyz_on, print_on, ckpt_on):
     ctx.assume_note("A3 (ghost h5py / text files) as in pyvc.ghostfs; _rotate_existing assumed to find no previous files")
     ctx.assume_note("callee contracts assumed here and proved separately: append_vectors/append_data = vectors_effect/data_effect (tasks append_vectors, append_data); _do_integrator_step advances the molecule to hist(., i+1) (C08); _kinetic_energy/_calc_temperature are functions of the current velocities only (C08/C13)")
     ctx.assume_note("configuration: fresh run (step_offset = 0), molid = [0], ground state, no scale_vel / control_energy_shift / COM removal kwargs")
+
+
+def _prepopulate_resume_disk(disk, env):
+    """Disk state a resumed run starts from, as guaranteed by the crash invariant Recoverable(c) (C10): every stream's file
+    has the capacity of the uninterrupted run; rows for labels <= c hold (label, hist(label)); later rows are arbitrary."""
+    c0, steps, r = env["k0"], env["steps"], env["r"]
+    f = G.GhostH5File(disk, "md.0.h5", "w")
+    disk.h5["md.0.h5"] = f
+    disk.exists.add("md.0.h5")
+    f.create_dataset("atoms", data=np.array([1]))
+
+    def scalar(nm):
+        return lambda rr: Sym(E.uf("disk_" + nm, (rr,), E.R))
+
+    def vec(nm, n):
+        return lambda rr: np.array([Sym(E.uf("disk_" + nm, (rr, E.const(j)), E.R)) for j in range(int(np.prod(n)))], dtype=object).reshape(n)
+
+    streams = ([("data", env["d_data"])] if env["data_on"] else []) + [(n, env["cad"][n]) for n in STREAMS if env["pos"][n]]
+    for s, d in streams:
+        cap = (steps + d) // d  # capacity allocated by the fresh run (C11 obligation exit.*.no-filler-rows / _n_timepoints)
+        inr = (r >= 0) & (r <= c0 // d)
+        if s == "data":
+            gd = f.create_group("data")
+            names = {"steps": None, "thermo/T": None, "thermo/Ek": None, "thermo/Ep": None}
+            for nm in names:
+                ds = gd.create_dataset(nm, shape=(cap,))
+                ds.base = scalar("data_" + nm.replace("/", "_"))
+            dd = gd.create_dataset("properties/ground_dipole", shape=(cap, 3))
+            dd.base = vec("data_dipole", (3,))
+            assume(Sym(E.implies(inr.n, E.eq(E.node_of(gd["steps"].read(r.n)), (r * d).n))), ghost=True)
+            vel = hist("velocities", r * d).a.reshape(-1)
+            ek = E.uf("Ek_of", tuple(x.n for x in vel), E.R)
+            assume(Sym(E.implies(inr.n, E.eq(E.node_of(gd["thermo/Ek"].read(r.n)), ek))), ghost=True)
+            assume(Sym(E.implies(inr.n, E.eq(E.node_of(gd["thermo/T"].read(r.n)), E.uf("T_of", (ek,), E.R)))), ghost=True)
+            assume(Sym(E.implies(inr.n, E.eq(E.node_of(gd["thermo/Ep"].read(r.n)), hist("Etot", r * d).a[0].n))), ghost=True)
+            dip = np.asarray(dd.read(r.n), dtype=object).reshape(-1)
+            want = hist("dipole", r * d).a.reshape(-1)
+            assume(Sym(E.implies(inr.n, E.and_(*[E.eq(E.node_of(x), y.n) for x, y in zip(dip, want)]))), ghost=True)
+        else:
+            g = f.create_group(s)
+            ds = g.create_dataset("steps", shape=(cap,))
+            ds.base = scalar(s + "_steps")
+            dv = g.create_dataset("values", shape=(cap, 1, 3))
+            dv.base = vec(s + "_values", (1, 3))
+            assume(Sym(E.implies(inr.n, E.eq(E.node_of(ds.read(r.n)), (r * d).n))), ghost=True)
+            vals = np.asarray(dv.read(r.n), dtype=object).reshape(-1)
+            want = hist(VEC_FIELD[s], r * d).a.reshape(-1)
+            assume(Sym(E.implies(inr.n, E.and_(*[E.eq(E.node_of(x), y.n) for x, y in zip(vals, want)]))), ghost=True)
+    disk.events.clear()
 
 
 def classify_cadence(model, rep):
